@@ -114,6 +114,32 @@ def check(run):
                 run.unrecognised('R6-FLOW', 'byref', construct + ' -> ' + str(fl.dest), loc, 'handler passed by non-const reference to ' + str(fl.dest))
             elif fl.kind == 'invoke':
                 invoke_fns.setdefault(fn.key(), []).append(fl)
+    run.clause('R6-FLOW no completion is made from an EMPTY slot: a handler slot is moved into post()/invoked only under a dominating test that it is set (a SYN-ACK for a connect that was cancelled must not post the empty m_connect_handler - the posted call of an empty function crashes)')
+    nslot = 0
+    for fn_ in fx.repo_functions():
+        if fn_.cfg is None or not (fn_.file.startswith(simlib.REPO_PREFIX + 'src/') or fn_.file.startswith(simlib.REPO_PREFIX + 'include/')):
+            continue
+        if q.top_function(fx, fn_).cls not in (TCP, UDP, ACC, TIMER):
+            continue
+        try:
+            fl_ = handlers.flows_in(fx, fn_)
+        except Exception:
+            continue
+        for f_ in fl_:
+            if not f_.entity.startswith('field:') or not (f_.dest == 'post' or f_.kind == 'invoke'):
+                continue
+            slot = f_.entity.split('::')[-1]
+            if not slot.startswith('m_'):
+                continue
+            nslot += 1
+            run.touch(fn_)
+            g_ = [(q.render(fn_, a_).replace('this->', ''), p_) for a_, p_ in q.guards_at(fn_, f_.site)]
+            okg = any(t_ == slot and p_ for t_, p_ in g_)
+            run.check(okg, 'R6-FLOW', 'completion-from-tested-slot', '%s: %s' % (q.top_function(fx, fn_).norm, slot), fn_.loc(f_.site),
+                      '%s is moved into a posted completion without a dominating test that it is set: when the operation was cancelled (or never started) the slot is empty and the posted call of an empty function crashes' % slot,
+                      'taken only under if (%s)' % slot)
+    if nslot < 20:
+        run.broke('only %d completions made from handler slots found (about 25 confirmed by hand)' % nslot)
     run.floor('R6-FLOW', 42)
 
     # ---- B: never inline -------------------------------------------------
